@@ -81,7 +81,8 @@ func skSource(tags []string) string {
 		// comments on the same line as the tags (they are removed before parsing and must take
 		// nothing else with them); deterministic in the position so that replays agree
 		if (i*7+len(tags))%5 == 0 {
-			sb.WriteString([]string{"{# c #}", "{#x#}", "{# a b #}"}[(i+len(tags))%3])
+			// (also comments that contain tags: what is commented out is not there)
+			sb.WriteString([]string{"{# c #}", "{#x#}", "{# a b #}", "{# {% endif %} #}", "{# {% for i := 0; i < 2; i++ %} #}", "{#{% endswitch %}{% endfor %}#}", "{# {% if a == 1 %} #}"}[(i+len(tags))%7])
 		}
 		sb.WriteString(skText[t])
 	}
@@ -102,8 +103,11 @@ func runC12(o *Options) *Result {
 	openers := []string{"if", "for", "forr", "switch"}
 	check := func(tags []string, how string) {
 		src := skSource(tags)
-		_, po := ParseReg([]byte(src), false)
+		// under either keep-format setting (deterministic in the source): comments go in both
+		keep := len(src)%2 == 1
+		_, po := ParseReg([]byte(src), keep)
 		res.Evaluations++
+		res.Hist(fmt.Sprintf("skeleton:keepFmt=%v", keep))
 		want := balancedSkel(tags)
 		res.Hist("skeleton:" + how)
 		res.Hist(fmt.Sprintf("skeleton:balanced=%v", want))
